@@ -1,6 +1,7 @@
 package vc
 
 import (
+	"time"
 	"fmt"
 	"go/constant"
 	"go/token"
@@ -113,6 +114,11 @@ func (e *Exec) runBlock(w work) ([]work, *Outcome) {
 			// are what turns a loop over 32 characters into thousands of paths
 			e.forks++
 			if e.prune && e.forks > 128 && st.Record == nil {
+				if e.pruneStart.IsZero() {
+					e.pruneStart = time.Now()
+				} else if time.Since(e.pruneStart) > 90*time.Second {
+					e.bail("path explosion in %s (the attempt with feasibility checks at every branch ran out of its 90 s)", fr.Fn)
+				}
 				if e.quickValid(st, c) {
 					return []work{{st, fr, t, blk, 0, false}}, nil
 				}
@@ -871,6 +877,7 @@ func (e *Exec) makeSlice(st *State, fr *Frame, in *ssa.MakeSlice) {
 	if cp.IsConst() && cp.C.IsInt64() {
 		n = int(cp.C.Int64())
 	}
+	asked := cp // what the allocation is charged for, whatever the model keeps of it
 	if n < 0 && !isScalarType(elem) && ln.IsConst() && ln.C.Sign() == 0 {
 		// make([]T, 0, n) of a non-scalar T with a symbolic capacity: an empty list (the capacity is not observable
 		// through the values the verifier tracks; appends build fresh lists)
@@ -879,7 +886,7 @@ func (e *Exec) makeSlice(st *State, fr *Frame, in *ssa.MakeSlice) {
 	}
 	av := e.zeroArray(st, elem, cp, n)
 	id := e.newObj(st, av, &ObjMeta{T: types.NewArray(elem, 0), Fresh: true})
-	e.accountAlloc(st, fr, in, elem, cp)
+	e.accountAlloc(st, fr, in, elem, asked)
 	fr.Env[in] = &SliceVal{Obj: id, Off: e.idx(0), Len: ln, Cap: cp, Nil: e.C.False(), ElemT: elem}
 }
 
